@@ -369,6 +369,16 @@ SITES["C13"] += [
          atoms={"h2": ("computed", I), "cfg.meta.hash": ("recorded", O)}),
 ]
 
+# what goes into the pickled state of an item list (C15): stored identifiers / numbers, else resolved through the vocabulary, else left out
+SITES["C15"] = [
+    dict(file="data/items.py", cls="ItemList", fn="__getstate__", mode="branch", select="self._ids is not None", lean="stateIdsBranch",
+         atoms={"self._ids": ("ids", O), "self._vocab": ("vocab", O)}),
+    dict(file="data/items.py", cls="ItemList", fn="__getstate__", mode="branch", select="self._numbers is not None", lean="stateNumbersBranch",
+         atoms={"self._numbers": ("numbers", O), "self._vocab": ("vocab", O)}),
+    dict(file="data/items.py", cls="ItemList", fn="__setstate__", mode="branch", select="'numbers' in state", lean="restoreNumbersBranch",
+         atoms={"'numbers' in state": ("hasNumbers", B)}),
+]
+
 # the runner's decisions (C02): what a request of a finished / running node yields, when an input or a dependency is reported missing or
 # ill-typed, when a dependency is required of its source, and when a component that is not required bails out
 _RUN = dict(file="pipeline/runner.py", cls="PipelineRunner")
